@@ -411,69 +411,109 @@ Lemma register_chain_unfold : forall reg d attr_names chain,
   end.
 Proof. reflexivity. Qed.
 
-(* what one registration does: either the selector was already registered FOR THE SAME OBJECT and its entry is
-   replaced in place, or the selector is new and the entry is appended *)
+(* removing the registrations under a selector *)
+Definition remove_sel (sel : string) (reg : list centry) : list centry :=
+  filter (fun x => negb (String.eqb (ce_sel x) sel)) reg.
+Lemma In_remove_sel : forall sel reg x, In x (remove_sel sel reg) <-> In x reg /\ ce_sel x <> sel.
+Proof.
+  intros sel reg x. unfold remove_sel. rewrite filter_In. split; intros [H1 H2]; (split; [exact H1|]).
+  - intro Hc. rewrite Hc, String.eqb_refl in H2. discriminate.
+  - destruct (String.eqb (ce_sel x) sel) eqn:E; [apply String.eqb_eq in E; contradiction|reflexivity].
+Qed.
+Lemma find_sel_remove_same : forall sel reg, find_sel sel (remove_sel sel reg) = None.
+Proof.
+  intros sel reg. destruct (find_sel sel (remove_sel sel reg)) as [e|] eqn:E; [|reflexivity].
+  destruct (find_sel_Some _ _ _ E) as [Hin Hs]. apply In_remove_sel in Hin. destruct Hin as [_ Hne]. contradiction.
+Qed.
+Lemma find_sel_remove_other : forall s sel reg, s <> sel -> find_sel s (remove_sel sel reg) = find_sel s reg.
+Proof.
+  intros s sel reg Hne. induction reg as [|x r IH]; [reflexivity|]. unfold remove_sel in *. cbn [filter find_sel].
+  destruct (String.eqb (ce_sel x) sel) eqn:E; cbn [negb find_sel].
+  - apply String.eqb_eq in E. destruct (String.eqb (ce_sel x) s) eqn:E2; [apply String.eqb_eq in E2; congruence|exact IH].
+  - destruct (String.eqb (ce_sel x) s); [reflexivity|exact IH].
+Qed.
+Lemma remove_sel_wf : forall sel reg, reg_wf reg -> reg_wf (remove_sel sel reg).
+Proof.
+  intros sel reg. unfold reg_wf, remove_sel. induction reg as [|x r IH]; intros H; cbn [filter map]; [constructor|].
+  cbn [map] in H. inversion H as [|? ? Hx Hr]; subst.
+  destruct (negb (String.eqb (ce_sel x) sel)); [|exact (IH Hr)].
+  cbn [map]. constructor; [|exact (IH Hr)].
+  intro Hin. apply Hx. apply in_map_iff in Hin. destruct Hin as [y [Hy Hin]]. apply filter_In in Hin.
+  rewrite <- Hy. apply in_map. exact (proj1 Hin).
+Qed.
+(* what one registration does: the entry is appended; if the selector was already registered (FOR THE SAME OBJECT)
+   the old registration is removed - the new one is the most recent registration of the object *)
 Lemma do_one_inv : forall d reg names o m reg' sel rp, do_one d reg names o m = DOk (reg', sel, rp) ->
   exists i entry, obj_id o = Some i /\ ce_sel entry = sel /\ ce_obj entry = i /\
-    ((exists e, find_sel sel reg = Some e /\ ce_obj e = i /\ reg' = replace_entry sel entry reg) \/
+    ((exists e, find_sel sel reg = Some e /\ ce_obj e = i /\ reg' = remove_sel sel reg ++ [entry]) \/
      (find_sel sel reg = None /\ reg' = reg ++ [entry])).
 Proof.
   intros d reg names o m reg' sel rp H. unfold do_one in H.
   destruct (obj_id o) as [i|]; [|discriminate]. cbv zeta in H.
   match type of H with context [find_sel ?s reg] => set (sel0 := s) in * end.
-  match type of H with context [replace_entry sel0 ?en reg] => set (entry := en) in * end.
+  match type of H with context [reg ++ [?en]] => set (entry := en) in * end.
   exists i, entry. split; [reflexivity|].
   destruct (find_sel sel0 reg) as [e|] eqn:Ef.
   - destruct (Nat.eqb (ce_obj e) i) eqn:En; [|discriminate]. inversion H; subst. apply Nat.eqb_eq in En.
     split; [reflexivity|]. split; [reflexivity|]. left. exists e. auto.
   - inversion H; subst. split; [reflexivity|]. split; [reflexivity|]. right. auto.
 Qed.
+(* uniformly: the registry without the selector, plus the entry *)
+Lemma do_one_shape : forall d reg names o m reg' sel rp, do_one d reg names o m = DOk (reg', sel, rp) ->
+  exists i entry, obj_id o = Some i /\ ce_sel entry = sel /\ ce_obj entry = i /\ reg' = remove_sel sel reg ++ [entry] /\
+    (forall e, find_sel sel reg = Some e -> ce_obj e = i).
+Proof.
+  intros d reg names o m reg' sel rp H.
+  destruct (do_one_inv _ _ _ _ _ _ _ _ H) as [i [entry [Hi [Hse [Hoe [[e [Hf [Ho Hr]]]|[Hf Hr]]]]]]]; exists i, entry.
+  - repeat (split; [assumption|]). intros e1 He1. congruence.
+  - repeat (split; [assumption|]). split; [|intros e1 He1; congruence].
+    subst reg'. f_equal. unfold remove_sel. symmetry. clear -Hf.
+    induction reg as [|x r IH]; [reflexivity|]. cbn [find_sel] in Hf. cbn [filter].
+    destruct (String.eqb (ce_sel x) sel); [discriminate|]. cbn [negb]. rewrite (IH Hf) at 1. reflexivity.
+Qed.
 
 Lemma do_one_wf : forall d reg names o m reg' sel rp, reg_wf reg -> do_one d reg names o m = DOk (reg', sel, rp) -> reg_wf reg'.
 Proof.
   intros d reg names o m reg' sel rp Hwf H.
-  destruct (do_one_inv _ _ _ _ _ _ _ _ H) as [i [entry [_ [Hs [_ [[e [Hf [_ Hr]]]|[Hf Hr]]]]]]]; subst reg'; unfold reg_wf in *.
-  - rewrite map_sel_replace; assumption.
-  - rewrite map_app. cbn [map]. apply NoDup_snoc; [assumption|]. rewrite Hs. apply find_sel_None. exact Hf.
+  destruct (do_one_shape _ _ _ _ _ _ _ _ H) as [i [entry [_ [Hs [_ [Hr _]]]]]]. subst reg'. unfold reg_wf.
+  rewrite map_app. cbn [map]. apply NoDup_snoc; [apply remove_sel_wf; exact Hwf|].
+  rewrite Hs. apply find_sel_None. apply find_sel_remove_same.
 Qed.
 (* selectors are never lost and keep their object *)
 Lemma do_one_monotone : forall d reg names o m reg' sel rp, do_one d reg names o m = DOk (reg', sel, rp) ->
   forall s e, find_sel s reg = Some e -> exists e', find_sel s reg' = Some e' /\ ce_obj e' = ce_obj e.
 Proof.
   intros d reg names o m reg' sel rp H s e0 Hs.
-  destruct (do_one_inv _ _ _ _ _ _ _ _ H) as [i [entry [_ [Hse [Hoe [[e [Hf [Ho Hr]]]|[Hf Hr]]]]]]]; subst reg'.
-  - destruct (string_dec s sel) as [Heq|Hne].
-    + subst s. rewrite Hf in Hs. inversion Hs; subst e0. exists entry. split; [eapply find_sel_replace_same; eauto|congruence].
-    + exists e0. split; [rewrite find_sel_replace_other; assumption|reflexivity].
-  - exists e0. split; [rewrite find_sel_app, Hs; reflexivity|reflexivity].
+  destruct (do_one_shape _ _ _ _ _ _ _ _ H) as [i [entry [_ [Hse [Hoe [Hr Hsame]]]]]]. subst reg'.
+  rewrite find_sel_app. destruct (string_dec s sel) as [Heq|Hne].
+  - subst s. rewrite find_sel_remove_same, Hse, String.eqb_refl. exists entry. split; [reflexivity|].
+    rewrite (Hsame _ Hs). exact Hoe.
+  - rewrite find_sel_remove_other, Hs by exact Hne. exists e0. auto.
 Qed.
 (* the registered selector maps to the registered object afterwards *)
 Lemma do_one_registered : forall d reg names o m reg' sel rp, do_one d reg names o m = DOk (reg', sel, rp) ->
   exists i e, obj_id o = Some i /\ find_sel sel reg' = Some e /\ ce_obj e = i.
 Proof.
   intros d reg names o m reg' sel rp H.
-  destruct (do_one_inv _ _ _ _ _ _ _ _ H) as [i [entry [Hi [Hse [Hoe [[e [Hf [Ho Hr]]]|[Hf Hr]]]]]]]; subst reg'; exists i, entry.
-  - split; [exact Hi|]. split; [eapply find_sel_replace_same; eauto|exact Hoe].
-  - split; [exact Hi|]. split; [|exact Hoe]. rewrite find_sel_app, Hf, Hse, String.eqb_refl. reflexivity.
+  destruct (do_one_shape _ _ _ _ _ _ _ _ H) as [i [entry [Hi [Hse [Hoe [Hr _]]]]]]. subst reg'. exists i, entry.
+  split; [exact Hi|]. split; [|exact Hoe]. rewrite find_sel_app, find_sel_remove_same, Hse, String.eqb_refl. reflexivity.
 Qed.
 (* look-ups of other selectors are unchanged *)
 Lemma do_one_other : forall d reg names o m reg' sel rp, do_one d reg names o m = DOk (reg', sel, rp) ->
   forall s, s <> sel -> find_sel s reg' = find_sel s reg.
 Proof.
   intros d reg names o m reg' sel rp H s Hne.
-  destruct (do_one_inv _ _ _ _ _ _ _ _ H) as [i [entry [Hi [Hse [Hoe [[e [Hf [Ho Hr]]]|[Hf Hr]]]]]]]; subst reg'.
-  - apply find_sel_replace_other; assumption.
-  - rewrite find_sel_app. destruct (find_sel s reg); [reflexivity|].
-    destruct (String.eqb (ce_sel entry) s) eqn:E; [apply String.eqb_eq in E; congruence|reflexivity].
+  destruct (do_one_shape _ _ _ _ _ _ _ _ H) as [i [entry [Hi [Hse [Hoe [Hr _]]]]]]. subst reg'.
+  rewrite find_sel_app, find_sel_remove_other by exact Hne. destruct (find_sel s reg); [reflexivity|].
+  destruct (String.eqb (ce_sel entry) s) eqn:E; [apply String.eqb_eq in E; congruence|reflexivity].
 Qed.
 (* the set of registered objects only grows by the object just registered *)
 Lemma do_one_objs : forall d reg names o m reg' sel rp, do_one d reg names o m = DOk (reg', sel, rp) ->
   forall x, In x reg' -> In x reg \/ obj_id o = Some (ce_obj x).
 Proof.
   intros d reg names o m reg' sel rp H x Hin.
-  destruct (do_one_inv _ _ _ _ _ _ _ _ H) as [i [entry [Hi [Hse [Hoe [[e [Hf [Ho Hr]]]|[Hf Hr]]]]]]]; subst reg'.
-  - destruct (In_replace_entry _ _ _ _ Hin) as [Hx|Hx]; [right; subst x; congruence|left; exact Hx].
-  - apply in_app_or in Hin. destruct Hin as [Hx|[Hx|[]]]; [left; exact Hx|right; subst x; congruence].
+  destruct (do_one_shape _ _ _ _ _ _ _ _ H) as [i [entry [Hi [Hse [Hoe [Hr _]]]]]]. subst reg'.
+  apply in_app_or in Hin. destruct Hin as [Hx|[Hx|[]]]; [left; exact (proj1 (proj1 (In_remove_sel _ _ _) Hx))|right; subst x; congruence].
 Qed.
 
 (* ------------------------------------------------------------------ *)
@@ -804,11 +844,6 @@ Proof. intros a b r. unfold retarget1. destruct (String.eqb a r); reflexivity. Q
 (* "latest": the selector is registered and is the most recent registration of its object *)
 Definition latest (reg : list centry) (r : string) : Prop :=
   exists e, find_sel r reg = Some e /\ find_obj (ce_obj e) reg = Some e.
-(* the re-registered object gets a NEW selector, or the selector it had last - it is not re-registered in place
-   under one of its OLDER selectors *)
-Definition no_respelling (reg : list centry) (rp : list (string * string)) : Prop :=
-  forall o n, In (o, n) rp -> o = n \/ find_sel n reg = None.
-
 Lemma find_obj_first_app : forall k l1 l2, find_obj_first k (l1 ++ l2) =
   match find_obj_first k l1 with Some x => Some x | None => find_obj_first k l2 end.
 Proof.
@@ -825,6 +860,17 @@ Lemma find_obj_cons : forall k x l, find_obj k (x :: l) =
 Proof. intros k x l. change (x :: l) with ([x] ++ l). rewrite find_obj_app, find_obj_single. reflexivity. Qed.
 Lemma find_obj_snoc : forall k l x, find_obj k (l ++ [x]) = if Nat.eqb (ce_obj x) k then Some x else find_obj k l.
 Proof. intros k l x. rewrite find_obj_app, find_obj_single. destruct (Nat.eqb (ce_obj x) k); reflexivity. Qed.
+
+Lemma find_obj_filter : forall k (f : centry -> bool) reg, (forall x, In x reg -> f x = false -> ce_obj x <> k) ->
+  find_obj k (filter f reg) = find_obj k reg.
+Proof.
+  intros k f reg. induction reg as [|x r IH]; intros H; [reflexivity|]. cbn [filter].
+  assert (IH' : find_obj k (filter f r) = find_obj k r) by (apply IH; intros y Hy; apply H; right; exact Hy).
+  destruct (f x) eqn:Ef.
+  - rewrite !find_obj_cons, IH'. reflexivity.
+  - rewrite find_obj_cons, IH'. destruct (find_obj k r); [reflexivity|].
+    pose proof (H x (or_introl eq_refl) Ef) as Hne. apply Nat.eqb_neq in Hne. rewrite Hne. reflexivity.
+Qed.
 
 Lemma replace_decomp : forall sel entry reg ec, find_sel sel reg = Some ec ->
   exists a b, reg = a ++ ec :: b /\ replace_entry sel entry reg = a ++ entry :: b.
@@ -874,58 +920,33 @@ Proof.
     + eapply do_one_monotone; eauto.
   - rewrite retarget1_nil. eapply do_one_monotone; eauto.
 Qed.
-(* ... and stays the latest registration of its object, unless the object is respelled in place *)
+(* ... and stays the latest registration of its object *)
 Lemma do_one_latest : forall d reg names o m reg1 sel rp r e, reg_wf reg ->
-  do_one d reg names o m = DOk (reg1, sel, rp) -> no_respelling reg rp ->
+  do_one d reg names o m = DOk (reg1, sel, rp) ->
   find_sel r reg = Some e -> find_obj (ce_obj e) reg = Some e ->
   exists e', find_sel (retarget1 rp r) reg1 = Some e' /\ ce_obj e' = ce_obj e /\ find_obj (ce_obj e) reg1 = Some e'.
 Proof.
-  intros d reg names o m reg1 sel rp r e Hwf Hdo Hnr Hs Hl.
+  intros d reg names o m reg1 sel rp r e Hwf Hdo Hs Hl.
   destruct (do_one_rp _ _ _ _ _ _ _ _ Hdo) as [i [Hi Hrp]].
-  destruct (do_one_inv _ _ _ _ _ _ _ _ Hdo) as [i1 [entry [Hi1 [Hse [Hoe [[ec [Hfs [Hoc Hr]]]|[Hfs Hr]]]]]]];
-    rewrite Hi in Hi1; injection Hi1 as Hi1; subst i1.
-  - (* replaced in place *)
-    destruct (find_sel_Some _ _ _ Hfs) as [Hinc Hsc].
-    destruct (find_obj i reg) as [e0|] eqn:Efo; [|rewrite find_obj_None in Efo; exfalso; exact (Efo _ Hinc Hoc)].
-    subst rp. destruct (find_obj_Some _ _ _ Efo) as [Hin0 Ho0].
-    assert (Hsel0 : ce_sel e0 = sel).
-    { destruct (Hnr _ _ (or_introl eq_refl)) as [H|H]; [exact H|congruence]. }
-    assert (ec = e0).
-    { pose proof (find_sel_In_nodup _ _ Hwf Hin0) as H. rewrite Hsel0, Hfs in H. congruence. }
-    subst ec. rewrite Hsel0, retarget1_single.
-    destruct (replace_decomp sel entry reg e0 Hfs) as [a [b [Ereg Erep]]].
-    destruct (Nat.eq_dec (ce_obj e) i) as [Heq|Hne].
-    + rewrite Heq, Efo in Hl. injection Hl as Hl. subst e0.
-      destruct (find_sel_Some _ _ _ Hs) as [_ Hr']. rewrite <- Hsel0, Hr', String.eqb_refl. subst reg1.
-      exists entry. split; [rewrite <- Hr', Hsel0; eapply find_sel_replace_same; eauto|]. split; [congruence|].
-      rewrite Heq, Erep, find_obj_app, find_obj_cons.
-      destruct (find_obj i b) as [x|] eqn:Eb.
-      * exfalso. rewrite Ereg, find_obj_app, find_obj_cons, Eb in Efo. injection Efo as Efo. subst x.
-        destruct (find_obj_Some _ _ _ Eb) as [Hinb _]. rewrite Ereg in Hwf. exact (wf_mid_notin _ _ _ Hwf Hinb).
-      * rewrite Hoe, Nat.eqb_refl. reflexivity.
-    + assert (Hrs : r <> sel).
-      { intro Hc. subst r. rewrite Hfs in Hs. injection Hs as Hs. subst e0. exact (Hne Ho0). }
-      destruct (String.eqb sel r) eqn:Er; [apply String.eqb_eq in Er; congruence|]. subst reg1.
-      exists e. split; [rewrite find_sel_replace_other; assumption|]. split; [reflexivity|].
-      rewrite Erep, find_obj_app, find_obj_cons. rewrite Ereg, find_obj_app, find_obj_cons in Hl.
-      assert (E1 : Nat.eqb (ce_obj entry) (ce_obj e) = false) by (apply Nat.eqb_neq; congruence).
-      assert (E2 : Nat.eqb (ce_obj e0) (ce_obj e) = false) by (apply Nat.eqb_neq; congruence).
-      rewrite E1. rewrite E2 in Hl. exact Hl.
-  - (* appended *)
-    subst reg1. destruct (Nat.eq_dec (ce_obj e) i) as [Heq|Hne].
-    + rewrite Heq in Hl. rewrite Hl in Hrp. subst rp. destruct (find_sel_Some _ _ _ Hs) as [_ Hr'].
-      rewrite retarget1_single, Hr', String.eqb_refl.
-      exists entry. split; [rewrite find_sel_app, Hfs, Hse, String.eqb_refl; reflexivity|]. split; [congruence|].
-      rewrite Heq. apply find_obj_snoc_same. exact Hoe.
-    + assert (Hret : retarget1 rp r = r).
-      { destruct (find_obj i reg) as [e0|] eqn:Efo; subst rp; [|apply retarget1_nil].
-        rewrite retarget1_single. destruct (String.eqb (ce_sel e0) r) eqn:Er; [|reflexivity].
-        exfalso. apply String.eqb_eq in Er. destruct (find_obj_Some _ _ _ Efo) as [Hin0 Ho0].
-        rewrite <- Er, (find_sel_In_nodup _ _ Hwf Hin0) in Hs. injection Hs as Hs. subst e0. exact (Hne Ho0). }
-      rewrite Hret. exists e. split; [rewrite find_sel_app, Hs; reflexivity|]. split; [reflexivity|].
-      rewrite find_obj_snoc.
-      assert (E1 : Nat.eqb (ce_obj entry) (ce_obj e) = false) by (apply Nat.eqb_neq; congruence).
-      rewrite E1. exact Hl.
+  destruct (do_one_shape _ _ _ _ _ _ _ _ Hdo) as [i1 [entry [Hi1 [Hse [Hoe [Hr Hsame]]]]]].
+  rewrite Hi in Hi1; injection Hi1 as Hi1; subst i1. subst reg1.
+  destruct (Nat.eq_dec (ce_obj e) i) as [Heq|Hne].
+  - rewrite Heq in Hl. rewrite Hl in Hrp. subst rp. destruct (find_sel_Some _ _ _ Hs) as [_ Hr'].
+    rewrite retarget1_single, Hr', String.eqb_refl.
+    exists entry. split; [rewrite find_sel_app, find_sel_remove_same, Hse, String.eqb_refl; reflexivity|]. split; [congruence|].
+    rewrite Heq. apply find_obj_snoc_same. exact Hoe.
+  - assert (Hret : retarget1 rp r = r).
+    { destruct (find_obj i reg) as [e0|] eqn:Efo; subst rp; [|apply retarget1_nil].
+      rewrite retarget1_single. destruct (String.eqb (ce_sel e0) r) eqn:Er; [|reflexivity].
+      exfalso. apply String.eqb_eq in Er. destruct (find_obj_Some _ _ _ Efo) as [Hin0 Ho0].
+      rewrite <- Er, (find_sel_In_nodup _ _ Hwf Hin0) in Hs. injection Hs as Hs. subst e0. exact (Hne Ho0). }
+    assert (Hrs : r <> sel) by (intro Hc; subst r; exact (Hne (Hsame _ Hs))).
+    rewrite Hret. exists e. split; [rewrite find_sel_app, find_sel_remove_other, Hs by exact Hrs; reflexivity|].
+    split; [reflexivity|]. rewrite find_obj_snoc.
+    assert (E1 : Nat.eqb (ce_obj entry) (ce_obj e) = false) by (apply Nat.eqb_neq; congruence).
+    rewrite E1. unfold remove_sel. rewrite find_obj_filter; [exact Hl|].
+    intros x Hx Hf. apply negb_false_iff in Hf. apply String.eqb_eq in Hf.
+    pose proof (find_sel_In_nodup _ _ Hwf Hx) as Hfx. rewrite Hf in Hfx. rewrite (Hsame _ Hfx). congruence.
 Qed.
 
 Lemma register_chain_ref : forall reg d names chain reg' sel rp r e, reg_wf reg ->
@@ -945,11 +966,11 @@ Proof.
   - eapply do_one_ref; eauto.
 Qed.
 Lemma register_chain_latest : forall reg d names chain reg' sel rp r e, reg_wf reg ->
-  register_chain reg d names chain = DOk (reg', sel, rp) -> no_respelling reg rp ->
+  register_chain reg d names chain = DOk (reg', sel, rp) ->
   find_sel r reg = Some e -> find_obj (ce_obj e) reg = Some e ->
   exists e', find_sel (retarget1 rp r) reg' = Some e' /\ ce_obj e' = ce_obj e /\ find_obj (ce_obj e) reg' = Some e'.
 Proof.
-  intros reg d names chain reg' sel rp r e Hwf H Hnr Hs Hl. rewrite register_chain_unfold in H.
+  intros reg d names chain reg' sel rp r e Hwf H Hs Hl. rewrite register_chain_unfold in H.
   destruct (rev chain) as [|leaf rc]; [discriminate|].
   destruct (rev (removelast chain)) as [|parent rp0]; [discriminate|].
   destruct (is_func leaf && is_class parent).
@@ -959,7 +980,7 @@ Proof.
     + inversion H; subst; clear H. eapply do_one_latest; eauto.
     + match type of H with context [find_sel ?s0 reg1] => destruct (find_sel s0 reg1) end; [discriminate|].
       inversion H; subst; clear H.
-      destruct (do_one_latest _ _ _ _ _ _ _ _ _ _ Hwf Ed Hnr Hs Hl) as [e' [He' [Ho' Hl']]].
+      destruct (do_one_latest _ _ _ _ _ _ _ _ _ _ Hwf Ed Hs Hl) as [e' [He' [Ho' Hl']]].
       exists e'. split; [rewrite find_sel_app, He'; reflexivity|]. split; [exact Ho'|].
       rewrite find_obj_snoc. cbn [ce_obj].
       destruct (Nat.eqb i (ce_obj e)) eqn:En; [|exact Hl'].
@@ -985,23 +1006,23 @@ Proof.
     + eapply register_chain_ref; eauto.
   - destruct (get_configurable_static2 _ _ _ _ _ _ Hd H) as [Hr Hrp]. subst reg' rp. exists e. auto.
 Qed.
-(* ... and is still the latest registration of its object, unless the object is respelled in place *)
+(* ... and is still the latest registration of its object *)
 Theorem C19_reference_survives_step : forall reg c sel reg' full rp r e, reg_wf reg ->
   find_sel r reg = Some e -> find_obj (ce_obj e) reg = Some e ->
-  get_configurable reg c sel = DOk (reg', full, rp) -> no_respelling reg rp ->
+  get_configurable reg c sel = DOk (reg', full, rp) ->
   exists e', find_sel (retarget1 rp r) reg' = Some e' /\ ce_obj e' = ce_obj e /\ find_obj (ce_obj e) reg' = Some e'.
 Proof.
-  intros reg c sel reg' full rp r e Hwf Hs Hl H Hnr. destruct (c_dynamic c) eqn:Hd.
+  intros reg c sel reg' full rp r e Hwf Hs Hl H. destruct (c_dynamic c) eqn:Hd.
   - destruct (get_configurable_dyn_inv _ _ _ _ _ _ Hd H) as [root [d [chain [i [Ht [Hf [Hi [[e1 [_ [Hr [_ Hrp]]]]|[Hfo Hreg]]]]]]]]].
     + subst reg' rp. exists e. auto.
     + eapply register_chain_latest; eauto.
   - destruct (get_configurable_static2 _ _ _ _ _ _ Hd H) as [Hr Hrp]. subst reg' rp. exists e. auto.
 Qed.
 Corollary C19_latest_survives_step : forall reg c sel reg' full rp r, reg_wf reg -> latest reg r ->
-  get_configurable reg c sel = DOk (reg', full, rp) -> no_respelling reg rp -> latest reg' (retarget1 rp r).
+  get_configurable reg c sel = DOk (reg', full, rp) -> latest reg' (retarget1 rp r).
 Proof.
-  intros reg c sel reg' full rp r Hwf [e [Hs Hl]] H Hnr.
-  destruct (C19_reference_survives_step _ _ _ _ _ _ _ _ Hwf Hs Hl H Hnr) as [e' [Hs' [Ho' Hl']]].
+  intros reg c sel reg' full rp r Hwf [e [Hs Hl]] H.
+  destruct (C19_reference_survives_step _ _ _ _ _ _ _ _ Hwf Hs Hl H) as [e' [Hs' [Ho' Hl']]].
   exists e'. split; [exact Hs'|]. rewrite Ho'. exact Hl'.
 Qed.
 
@@ -1419,11 +1440,10 @@ Module Counterexamples.
     - vm_compute in E. discriminate.
   Qed.
 
-  (* (3) C19_reference_survives_step WITHOUT no_respelling: the class (object 1) is registered as a.C and, later, as b.C;
-         a reference names b.C (the latest).  A file importing a configures the unregistered method a.C.k: the class
-         is re-registered under a.C IN PLACE (replace_entry keeps the old position), the reference is re-pointed
-         b.C -> a.C (same object), but find_obj still answers b.C: the position-based inverse registry does not see the
-         re-registration (gin: _INVERSE_REGISTRY[cls] is the new a.C). *)
+  (* (3) re-registration under an OLDER selector of the object: the class (object 1) is registered as a.C and, later, as
+         b.C; a reference names b.C (the latest).  A file importing a configures the unregistered method a.C.k: the class is
+         re-registered under a.C, which becomes its latest registration (as gin's _INVERSE_REGISTRY[cls]); the reference
+         is re-pointed b.C -> a.C. *)
   Definition cx_cls2 : pyobj := PClass 1 [("k", PFunc 7)].
   Definition cx_da : dimport := {| d_module := "a"; d_from := false; d_alias := None |}.
   Definition cx_eA : centry := {| ce_sel := "a.C"; ce_obj := 1; ce_method := false; ce_src := None; ce_home := ("", "") |}.
@@ -1440,19 +1460,10 @@ Module Counterexamples.
     unfold reg_wf, cx_reg2. cbn [map ce_sel cx_eA cx_eB].
     constructor; [intros [H|[]]; discriminate|constructor; [intros []|constructor]].
   Qed.
-  Theorem C19_reference_survives_step_orig_refuted :
-    ~ (forall reg c sel reg' full rp r e, reg_wf reg ->
-         find_sel r reg = Some e -> find_obj (ce_obj e) reg = Some e ->
-         get_configurable reg c sel = DOk (reg', full, rp) ->
-         exists e', find_sel (retarget1 rp r) reg' = Some e' /\ ce_obj e' = ce_obj e /\ find_obj (ce_obj e) reg' = Some e').
-  Proof.
-    intro H. destruct (get_configurable cx_reg2 cx_ctx2 "a.C.k") as [[[r' s] p]|err] eqn:E.
-    - destruct (H cx_reg2 cx_ctx2 _ _ _ _ "b.C" cx_eB cx_reg2_wf eq_refl eq_refl E) as [e' [Hs [_ Hl]]].
-      vm_compute in E. inversion E; subst r' s p. clear E.
-      vm_compute in Hs. injection Hs as Hs. vm_compute in Hl. injection Hl as Hl.
-      rewrite <- Hs in Hl. discriminate Hl.
-    - vm_compute in E. discriminate.
-  Qed.
+  Lemma respelled_class_is_latest : forall reg' full rp,
+    get_configurable cx_reg2 cx_ctx2 "a.C.k" = DOk (reg', full, rp) ->
+    retarget1 rp "b.C" = "a.C" /\ option_map ce_sel (find_obj 1 reg') = Some "a.C".
+  Proof. intros reg' full rp H. vm_compute in H. inversion H; subst. split; reflexivity. Qed.
 
   (* (4) refs_ok (every reference names the LATEST registration of its object) is not an invariant of a run:
          `a.C.k.x = @b.C` first resolves the value b.C (registering the class as b.C), then the target a.C.k registers
@@ -1526,6 +1537,6 @@ Print Assumptions C19_references_keep_working_call.
 Print Assumptions C19_reference_object_preserved.
 Print Assumptions Counterexamples.method_selector_collision_is_error.
 Print Assumptions Counterexamples.C19_exact_object_orig_refuted.
-Print Assumptions Counterexamples.C19_reference_survives_step_orig_refuted.
+Print Assumptions Counterexamples.respelled_class_is_latest.
 Print Assumptions Counterexamples.refs_ok_latest_not_invariant.
 Print Assumptions Counterexamples.static_result_not_latest.
